@@ -2,9 +2,11 @@
 import glob
 import os
 import shutil
+import time
 
 import numpy as np
 
+import attrlib
 import common
 import writerlib as wl
 
@@ -13,6 +15,10 @@ PROP_ATTRS = ["H5Tget_class", "H5Tget_size", "H5Tget_order", "H5Tget_precision",
               "subdir_cadence_secs", "file_cadence_millisecs", "sample_rate_numerator", "sample_rate_denominator",
               "is_complex", "num_subchannels", "is_continuous", "epoch", "digital_rf_time_description",
               "digital_rf_version"]
+
+
+def regenerate(res):
+    attrlib.regenerate(res)
 
 
 def norm(v):
@@ -62,7 +68,7 @@ def run(res):
                 "index/attribute conjuncts of the property are evaluated; then drf_properties.h5 is deleted and "
                 "regenerated from EVERY data file in turn and the channel is read back; non-trivial = distinct "
                 "(config, history)")
-    state = {"regen": 0}
+    state = {"regen": 0, "attrs": 0, "t0": int(time.time())}
 
     def oracle(cfg, ops, reports, files, chdir, mrep, mfiles, hist):
         sess_uuid = None
@@ -86,6 +92,39 @@ def run(res):
                     res.violation("attr-mismatch:" + k, "embedded attribute %s does not repeat the channel property" % k,
                                   dict(hist, file=f["name"]), v, norm(a.get(k)))
             seqs.append((f["ms"], norm(a.get("sequence_num")), norm(a.get("init_utc_timestamp"))))
+            ts = norm(a.get("init_utc_timestamp"))
+            if ts not in attrlib.init_timestamp_candidates(cfg):
+                res.violation("init-timestamp-wrong", "init_utc_timestamp is not the whole second of the session's start index",
+                              dict(hist, file=f["name"]), sorted(attrlib.init_timestamp_candidates(cfg)), ts)
+        # the regenerated attribute tables (Gen/AttrTables.v) against the real files: names, types, values
+        fin = [f for f in files if not f["tmp"]]
+        if fin and state["attrs"] < (40 if res.tier == "quick" else 600):
+            state["attrs"] += 1
+            t1 = int(time.time()) + 1
+            cases, meta = [], []
+            for f in fin:
+                with h5py.File(f["path"], "r") as h:
+                    act = attrlib.actual(h["rf_data"])
+                ct = act.get("computer_time", (1, 0))[1]
+                cases.append([1] + attrlib.env(cfg, seq=norm(f["attrs"].get("sequence_num")), init_ts=act.get("init_utc_timestamp", (1, 0))[1], clock=ct))
+                meta.append((f, act, ct))
+            pfile = os.path.join(chdir, "drf_properties.h5")
+            if os.path.exists(pfile):
+                with h5py.File(pfile, "r") as h:
+                    pact = attrlib.actual(h)
+                cases.append([2] + attrlib.env(cfg))
+                meta.append((None, pact, 0))
+            for (f, act, ct), out in zip(meta, common.run_model("attrs", cases)):
+                mod = attrlib.decode(out)
+                res.count("attribute_sets_compared")
+                if mod != act:
+                    diff = sorted(k for k in set(mod) | set(act) if mod.get(k) != act.get(k))
+                    res.disagree("attribute table model (regenerated from the C source) vs attributes of a real %s" % ("data file" if f else "drf_properties.h5"),
+                                 dict(hist, file=f["name"] if f else "drf_properties.h5"), {k: mod.get(k) for k in diff}, {k: act.get(k) for k in diff})
+                    break
+                if f is not None and not (state["t0"] - 1 <= ct <= t1):
+                    res.violation("computer-time-not-wall-clock", "computer_time is not the wall clock at file creation",
+                                  dict(hist, file=f["name"]), [state["t0"], t1], ct)
         # sequence numbers increase with file time (single session histories), same init timestamp
         for (m1, s1, t1), (m2, s2, t2) in zip(seqs, seqs[1:]):
             if not (s2 > s1) or t1 != t2:
